@@ -1,0 +1,19 @@
+//go:build verif
+
+package types
+
+// Contracts for the deductive checker in /verif (comment-only; compiled only with -tags verif).
+
+/*@
+func NewParams
+    inline
+func ValidateBool
+    inline
+func (Params).Validate
+    inline
+// the store key of a pair (tmhash of "erc20|denom") and its contract address: uninterpreted functions of the pair
+func (TokenPair).GetID
+    pure as tp_id
+func (TokenPair).GetERC20Contract
+    pure as tp_addr
+@*/
